@@ -35,7 +35,7 @@ PROPS = {
         "view": ["cdenc", "cddec", "ischan", "lifetime", "connid", "channum", "reqtrans", "reqfam", "evenport",
                  "rsrvtoken", "dontfrag", "data", "xoraddr"],
         "alarms": ["cd-encode-shape", "cd-roundtrip", "cd-invalid-number-decoded", "cd-decode-accepts-bad",
-                   "ischanneldata-disagrees", "attr-wrong-size-accepted", "xoraddr-short-value-accepted",
+                   "ischanneldata-disagrees", "attr-wrong-size-accepted", "attr-get-panics", "xoraddr-short-value-accepted",
                    "xoraddr-roundtrip"],
         "rule": "H1 drives the real ChannelData/attribute codecs: all 65536 channel numbers (encode+decode and as raw headers), "
                 "payload lengths 0-64 + MTU and uint16 boundaries (thorough: ~all lengths), raw buffers for every header class x "
